@@ -12,12 +12,12 @@ def c18(tier):
     ck = Check("C18", tier)
     binary = build_harness()
     maxlen = 5 if tier == "quick" else 7
-    cfg = write_cfg(['Mode = "strings"', "MaxLen = %d" % maxlen, 'TrimMode = "pair"'], invariants=["Faithful"])
+    cfg = write_cfg(['Mode = "strings"', "MaxLen = %d" % maxlen, 'TrimMode = "pair"', "Wrap = TRUE"], invariants=["Faithful"])
     rs = tlc("Codec", "s.cfg", files={"s.cfg": cfg}, timeout=2400)
     ck.add_tlc(rs)
     if rs.violation:
         ck.violation("Codec.tla (strings): " + rs.violation, {"tlc": rs.raw_tail[-2000:]})
-    cfg = write_cfg(['Mode = "values"', "MaxLen = 0", 'TrimMode = "pair"'], invariants=["Faithful"])
+    cfg = write_cfg(['Mode = "values"', "MaxLen = 0", 'TrimMode = "pair"', "Wrap = TRUE"], invariants=["Faithful"])
     rv = tlc("Codec", "v.cfg", files={"v.cfg": cfg}, timeout=2400)
     ck.add_tlc(rv)
     if rv.violation:
